@@ -523,6 +523,11 @@ XMLFormatter::handleUnEscapedChars(const XMLCh *                  srcPtr,
          fTarget->writeChars(fTmpBuf, outBytes, this);
       }
 
+      // An unpaired high surrogate at the end of the text: the transcoder waits for
+      // its second half and eats nothing; without this test the loop never ends.
+      if (charsEaten == 0)
+          ThrowXMLwithMemMgr(TranscodingException, XMLExcepts::Trans_BadSrcSeq, fMemoryManager);
+
       srcPtr += charsEaten;
       count  -= charsEaten;
    }
@@ -683,7 +688,7 @@ void XMLFormatter::specialFormat(const  XMLCh* const    toFormat
             //
             while (srcPtr < endPtr)
             {
-                if ((*srcPtr & 0xFC00) == 0xD800) {
+                if ((*srcPtr & 0xFC00) == 0xD800 && (srcPtr + 1) < endPtr) {
                     // we have encountered a surrogate, need to recombine before printing out
                     // use writeCharRef that takes XMLSize_t to get values larger than
                     // hex 0xFFFF printed.
@@ -698,7 +703,7 @@ void XMLFormatter::specialFormat(const  XMLCh* const    toFormat
 
                 // Move up the source pointer and break out if needed
                 srcPtr++;
-                if (fXCoder->canTranscodeTo(*srcPtr))
+                if (srcPtr >= endPtr || fXCoder->canTranscodeTo(*srcPtr))
                     break;
             }
         }
